@@ -403,7 +403,8 @@ class WebSocketApp:
                 else:
                     self._callback(self.on_open)
 
-                dispatcher.read(self.sock.sock, read, check)
+                if self.sock:
+                    dispatcher.read(self.sock.sock, read, check)
             except (
                 WebSocketConnectionClosedException,
                 ConnectionRefusedError,
